@@ -12,7 +12,11 @@ try:
     from seed_meta6 import NEEDS6
 except ImportError:
     NEEDS6 = {}
-ALL = {**NEEDS, **NEEDS2, **NEEDS3, **NEEDS4, **NEEDS5, **NEEDS6}
+try:
+    from seed_meta7 import NEEDS7
+except ImportError:
+    NEEDS7 = {}
+ALL = {**NEEDS, **NEEDS2, **NEEDS3, **NEEDS4, **NEEDS5, **NEEDS6, **NEEDS7}
 out, mapping, tlog = sys.argv[1], dict(m.split('=') for m in sys.argv[2].split(',')), sys.argv[3]
 tests = {}
 for line in open(tlog):
